@@ -253,6 +253,9 @@ func loadGraph(rep *core.Report, name, cfg string, timeout time.Duration) *graph
 			}
 		}
 	}
+	if res.Generated != int64(g.edges)+1 {
+		core.Infra("%s: TLC generated %d states (1 initial + transitions) but %d edges were emitted", cfg, res.Generated, g.edges)
+	}
 	if len(g.order) != len(g.nodes) {
 		core.Infra("%s: %d emitted states but only %d reachable over the emitted edges", cfg, len(g.nodes), len(g.order))
 	}
